@@ -84,6 +84,13 @@ func allScenarios() []*Scenario {
 	ps("two-publishers", []string{"c1", "", ""}, th(c("SUBSCRIBE", "ch")), th(c("PUBLISH", "ch", "a1"), c("PUBLISH", "ch", "a2")), th(c("PUBLISH", "ch", "b1")))
 	ps("payloads", []string{"c1", ""}, th(c("SUBSCRIBE", "ch")), th(c("PUBLISH", "ch", ""), c("PUBLISH", "ch", "a\r\nb")))
 	ps("sub-sub-cancel-pub", []string{"c1", "c2", "", ""}, th(c("SUBSCRIBE", "ch")), th(c("SUBSCRIBE", "ch")), th(c("@cancel", "c2")), th(c("PUBLISH", "ch", "m1")))
+	// the subscriber's own handler writes replies to the connection the publishers push to
+	psr := func(id string, conns []string, threads ...[][]string) {
+		s = append(s, &Scenario{ID: id, Prop: "C19", Threads: threads, PubSub: true, Conns: conns, ReplyOnConn: true})
+	}
+	psr("sub-ping-vs-pub", []string{"c1", ""}, th(c("SUBSCRIBE", "ch"), c("PING")), th(c("PUBLISH", "ch", "m1")))
+	psr("sub-get-vs-two-pubs", []string{"c1", "", ""}, th(c("SUBSCRIBE", "ch1", "ch2"), c("GET", "@k0")), th(c("PUBLISH", "ch1", "m1")), th(c("PUBLISH", "ch2", "m2")))
+	psr("sub-sub-replies-vs-pub-pub", []string{"c1", "c2", ""}, th(c("SUBSCRIBE", "ch"), c("PING", "x")), th(c("SUBSCRIBE", "ch"), c("PING", "y")), th(c("PUBLISH", "ch", "m1"), c("PUBLISH", "ch", "a\r\nb")))
 	tier := os.Getenv("VERIF_TIER")
 	s = append(s, genPairScenarios(tier)...)
 	s = append(s, genMultiPairScenarios(tier)...)
